@@ -27,18 +27,27 @@ RULE = ("TLC explores NFS41.tla exhaustively for small constants (2 clients, ope
         "share in {R,W,RW}, slots with duplicates in flight) and checks the C18/C19/C20 predicates on the "
         "design; the real NewNFS41Program over a real in-memory directory, NFS handle allocator and "
         "OpenedFilesPool with instrumented leaves is driven by scripted special cases (incl. I/O and "
-        "duplicate requests held in flight inside a synctest bubble) and seeded random multi-client "
-        "histories; every request, reply, state snapshot (verif hook) and leaf open/close counter is "
-        "validated by TLC against the reference model, the property predicates being evaluated on the "
-        "observed data; each history ends with all leases expiring and the retained state being checked.")
+        "duplicate requests held in flight inside a synctest bubble), seeded random multi-client "
+        "histories (clients that vanish while the others stay active, retransmitted / out-of-order "
+        "SEQUENCE and CREATE_SESSION requests) and seeded random histories with READ/WRITE requests held "
+        "inside the leaf and duplicates of them (same and different content, cached and uncached) while "
+        "everything else goes on; every request, reply, state snapshot (verif hook: client, owner, "
+        "session, slot and reply-cache records, open/lock state, lock table, pool) and leaf open/close "
+        "counter is validated by TLC against the reference model, the property predicates being evaluated "
+        "on the observed data (a request that must not execute must leave all of that unchanged); each "
+        "history ends with all leases expiring and the retained state being checked. STATS = how often "
+        "the antecedent of each predicate was true.")
 
 
-def _validate(ctx, out, label, timeout=1500):
+def _validate(ctx, out, label, timeout=1500, max_failures=12):
     path = os.path.join(out, "trace.ndjson")
     if not os.path.exists(path) or os.path.getsize(path) == 0:
         raise vlib.Infra("nfs41 driver %s produced no trace" % label)
+    # A trace is dropped at its first step that the reference cannot explain
+    # and validation stops after max_failures dropped traces: the bound must
+    # not be so small that later traces are never looked at.
     n = vlib.validate_traces(ctx, path, TRACE, TRACE_CFG, [SPEC], "nfs41_" + label,
-                             classify=vlib.classify_for(ctx.prop), timeout=timeout, max_failures=5)
+                             classify=vlib.classify_for(ctx.prop), timeout=timeout, max_failures=max_failures)
     if not ctx.cov["samples"] or len(ctx.cov["samples"]) < 12:
         lines = [ln for ln in vlib.read_lines(path) if '"ev":"snap"' not in ln]
         for ln in lines[3:9]:
@@ -70,7 +79,7 @@ def run_parts(ctx, design=True):
             vlib.design_check(ctx, SPEC, cfg, [], timeout=3000, workers=2, heap="3g")
     binary = vlib.go_build_test(ctx, "nfs41")
     quick = ctx.quick()
-    # VERIF_NFS41_ONLY=scen,inflight,random restricts the drivers (for iterating).
+    # VERIF_NFS41_ONLY=scen,inflight,rinflight,random restricts the drivers (for iterating).
     only = [x for x in os.environ.get("VERIF_NFS41_ONLY", "").split(",") if x]
     # 1. scripted special cases
     if not only or "scen" in only:
@@ -80,12 +89,18 @@ def run_parts(ctx, design=True):
     if not only or "inflight" in only:
         out = _driver(ctx, binary, "TestInFlight", "inflight", hang_ok=True)
         _validate(ctx, out, "inflight")
+    # 2b. seeded random histories with READ/WRITE requests held inside the leaf
+    # and duplicates of them, while everything else goes on
+    if not only or "rinflight" in only:
+        out = _driver(ctx, binary, "TestRandomInFlight", "rinflight",
+                      env={"VERIF_N": 20 if quick else 80, "VERIF_STEPS": 80}, hang_ok=True)
+        _validate(ctx, out, "rinflight", max_failures=25)
     # 3. seeded random multi-client histories
     if not only or "random" in only:
         n = 40 if quick else 150
         steps = 70 if quick else 90
         out = _driver(ctx, binary, "TestRandom", "random", env={"VERIF_N": n, "VERIF_STEPS": steps})
-        _validate(ctx, out, "random", timeout=3000)
+        _validate(ctx, out, "random", timeout=3000, max_failures=min(n + 2, 45))
     ctx.assumptions.append(
         "NFSv4.1: byte contents of READ/WRITE, attribute encoding, READDIR/LINK/CREATE and backchannel operations are "
         "not modelled; a request 'differs in content' when its sequence of operation types differs; the same "
